@@ -23,7 +23,7 @@ theorem WFB_bytes {p ty v offs data} (h : WFB (.bytes p ty v offs data)) :
   simp only [WFB] at h; exact ⟨h.1, h.2⟩
 theorem WFB_bytesView {p ty v views buf} (h : WFB (.bytesView p ty v views buf)) :
     VLen v views.length ∧ ∀ d ∈ views, (decodeView [buf] d).isOk = true := by
-  simp only [WFB] at h; exact ⟨h.1, h.2⟩
+  simp only [WFB] at h; exact ⟨h.1, h.2.1⟩
 theorem WFB_fixedSizeBinary {p n len v buf cur} (h : WFB (.fixedSizeBinary p n len v buf cur)) :
     VLen v len ∧ buf.length = len * n := by
   simp only [WFB] at h; exact ⟨h.1, h.2⟩
